@@ -2,6 +2,15 @@
 `rehash_in_place` (raw/mod.rs:2864): bulk conversion of the control bytes, the two loops, the unwind
 guard.  Intermediate invariant `RInv`: like `Inv`, but a live slot is marked FULL *or* DELETED
 ("pending"), and `items` counts both.
+
+Main results
+* `prepareRehashInPlace_spec`  FULL ↦ DELETED, special ↦ EMPTY, mirror restored, `RInv` holds.
+* `FInv.findInsertSlot_ok`     `find_insert_slot` under the structural invariant + an EMPTY bucket
+                               (valid in the middle of a rehash, also for tables smaller than a group).
+* `rehashGuard_spec`           the unwind guard never faults; what it leaves behind.
+* `rehashInner_spec`, `rehashOuter_spec`  the loops (`RPost`: success, or hasher panic + guard).
+* `rehashInPlace_spec`, `rehashInPlace_no_fault`, `rehashInPlace_panic_elems`.
+* `rehash_guard_defect_witness` / `rehash_guard_fixed_witness`  F1, by evaluation.
 -/
 import Hb.Proofs.InvStep
 import Hb.Proofs.FindSlot
@@ -626,5 +635,728 @@ theorem RInv.finv (h : RInv cfg t) : FInv cfg t := by
   simp only [Raw.countCtrl, List.countP_pos_iff, List.mem_range] at this
   obtain ⟨i, hi, he⟩ := this
   exact ⟨i, hi, by simpa using he⟩
+
+/-! ### 3. the stored elements under slot moves -/
+
+theorem elems_swap_perm {t t' : Raw} {i j : Nat} {a b : Option Elem} (hi : t.slots[i]? = some a)
+    (hj : t.slots[j]? = some b)
+    (h : t'.slots = (t.slots.setIfInBounds i b).setIfInBounds j a) :
+    List.Perm t'.elems t.elems := by
+  have hi' : i < t.slots.size := by
+    by_contra hn; rw [Array.getElem?_eq_none (by omega)] at hi; cases hi
+  have hj' : j < t.slots.size := by
+    by_contra hn; rw [Array.getElem?_eq_none (by omega)] at hj; cases hj
+  have ha : t.slots[i] = a := by
+    rw [Array.getElem?_eq_getElem hi'] at hi; exact Option.some.inj hi
+  have hb : t.slots[j] = b := by
+    rw [Array.getElem?_eq_getElem hj'] at hj; exact Option.some.inj hj
+  have hsw : t'.slots = t.slots.swap i j hi' hj' := by
+    subst ha; subst hb
+    rw [h, Array.swap_def]
+    simp [Array.setIfInBounds, hi', hj']
+  have := Array.swap_perm (xs := t.slots) hi' hj'
+  rw [Array.perm_iff_toList_perm] at this
+  rw [Raw.elems, Raw.elems, hsw]
+  exact this.filterMap id
+
+theorem elems_take_perm {t t' : Raw} {i : Nat} {e : Elem} (hi : t.slots[i]? = some (some e))
+    (h : t'.slots = t.slots.setIfInBounds i none) :
+    List.Perm (e :: t'.elems) t.elems := by
+  have hi' : i < t.slots.size := by
+    by_contra hn; rw [Array.getElem?_eq_none (by omega)] at hi; cases hi
+  have he : t.slots.toList[i]'(by simpa using hi') = some e := by
+    rw [Array.getElem?_eq_getElem hi'] at hi
+    simpa using Option.some.inj hi
+  have hl : i < t.slots.toList.length := by simpa using hi'
+  have e1 : t.slots.toList = t.slots.toList.take i ++ some e :: t.slots.toList.drop (i + 1) := by
+    rw [← he, List.getElem_cons_drop, List.take_append_drop]
+  have e2 : t'.slots.toList = t.slots.toList.take i ++ none :: t.slots.toList.drop (i + 1) := by
+    rw [h, Array.toList_setIfInBounds, List.set_eq_take_append_cons_drop, if_pos hl]
+  rw [Raw.elems, Raw.elems, e2]
+  conv => rhs; rw [e1]
+  simp only [List.filterMap_append, List.filterMap_cons, id]
+  exact List.perm_middle.symm
+
+/-! ### 5. basic steps under `RInv` -/
+
+theorem setCtrl_full (hc : CfgOk cfg) (h : StructInv cfg t) (ha : t.alloc = true) {i : Nat}
+    (hi : i < t.buckets) {c : Nat} (hv : ValidCtrl c) :
+    ∃ t', setCtrl cfg t i c = .ok t' ∧ StructInv cfg t' ∧ t'.mask = t.mask ∧ t'.slots = t.slots ∧
+      t'.items = t.items ∧ t'.gl = t.gl ∧ t'.alloc = true ∧
+      (∀ j, j < t.buckets → t'.ctrlAt j = if j = i then c else t.ctrlAt j) ∧
+      (∀ p : Nat → Bool, t'.countCtrl p + (if p (t.ctrlAt i) then 1 else 0) =
+        t.countCtrl p + (if p c then 1 else 0)) := by
+  have hall := h.allocated ha
+  obtain ⟨t', he, h1, h2, h3, h4, h5, h6, h7⟩ := setCtrl_ok hc hall hi c
+  have hb := ctrlAt_bucket hc hall hi h7
+  exact ⟨t', he, (h.update hc hall hi hv h1 (by rw [h5, ha]) (by rw [h2]) h6 h7).1, h1, h2, h3, h4,
+    by rw [h5, ha], hb, fun p => countCtrl_set c h1 hi hb p⟩
+
+theorem slot_cases (s : Array (Option Elem)) {i : Nat} (hi : i < s.size) :
+    (s[i]? = some none ∧ (s[i]?.join).isSome = false) ∨
+    (∃ e, s[i]? = some (some e) ∧ (s[i]?.join).isSome = true) := by
+  rw [Array.getElem?_eq_getElem hi]
+  cases s[i] with
+  | none => left; exact ⟨rfl, rfl⟩
+  | some e => right; exact ⟨e, rfl, rfl⟩
+
+theorem RInv.slots_size (h : RInv cfg t) : t.slots.size = t.buckets := h.allocated.2.2.2.1
+
+theorem RInv.slot_live (h : RInv cfg t) {i : Nat} (hi : i < t.buckets)
+    (hl : isLive (t.ctrlAt i) = true) : ∃ e, t.slots[i]? = some (some e) := by
+  have hi' : i < t.slots.size := by rw [h.slots_size]; exact hi
+  rcases slot_cases t.slots hi' with ⟨_, h2⟩ | ⟨e, h1, _⟩
+  · have := (h.live i hi').mpr hl
+    rw [h2] at this; cases this
+  · exact ⟨e, h1⟩
+
+theorem RInv.slot_dead (h : RInv cfg t) {i : Nat} (hi : i < t.buckets)
+    (hl : isLive (t.ctrlAt i) = false) : t.slots[i]? = some none := by
+  have hi' : i < t.slots.size := by rw [h.slots_size]; exact hi
+  rcases slot_cases t.slots hi' with ⟨h1, _⟩ | ⟨e, _, h2⟩
+  · exact h1
+  · have := (h.live i hi').mp h2
+    rw [hl] at this; cases this
+
+/-! ### `items` is the number of stored elements -/
+
+theorem length_filterMap_range {α} (l : List (Option α)) :
+    ∀ (q : Nat → Bool), (∀ i, i < l.length → (l[i]?.join).isSome = q i) →
+      (l.filterMap id).length = (List.range l.length).countP q := by
+  induction l with
+  | nil => intro q _; rfl
+  | cons a l ih =>
+    intro q hq
+    have h0 := hq 0 (by simp)
+    have ih := ih (fun i => q (i + 1)) (fun i hi => by
+      have := hq (i + 1) (by simp; omega)
+      simpa using this)
+    rw [List.length_cons, List.range_succ_eq_map, List.countP_cons, List.countP_map]
+    simp only [List.getElem?_cons_zero, Option.join_some] at h0
+    cases a with
+    | none =>
+      simp only [Option.isSome_none] at h0
+      show (List.filterMap id l).length = _
+      rw [ih, ← h0]
+      simp [Function.comp_def]
+    | some x =>
+      simp only [Option.isSome_some] at h0
+      show (List.filterMap id l).length + 1 = _
+      rw [ih, ← h0]
+      simp [Function.comp_def]
+
+theorem RInv.items_eq_length (h : RInv cfg t) : t.items = t.elems.length := by
+  rw [h.items_eq, Raw.elems, Raw.countCtrl,
+    length_filterMap_range t.slots.toList (fun i => isLive (t.ctrlAt i))]
+  · rw [Array.length_toList, h.slots_size]
+  · intro i hi
+    rw [Array.length_toList] at hi
+    rw [Array.getElem?_toList]
+    have := h.live i hi
+    cases h1 : (t.slots[i]?.join).isSome <;> cases h2 : isLive (t.ctrlAt i) <;> simp_all
+
+/-! ### from `RInv` back to `Inv` once no bucket is pending -/
+
+theorem RInv.toInv (h : RInv cfg t) (hnd : ∀ j, j < t.buckets → t.ctrlAt j ≠ DELETED) :
+    Inv cfg { t with gl := bucketMaskToCapacity t.mask - t.items } ∧
+    t.countCtrl (· == DELETED) = 0 ∧ t.items ≤ bucketMaskToCapacity t.mask := by
+  have hD : t.countCtrl (· == DELETED) = 0 :=
+    countCtrl_eq_zero _ (fun j hj => by simpa using hnd j hj)
+  have hF : t.countCtrl isFull = t.items := by
+    have := h.items_split; omega
+  have hcap : t.items ≤ bucketMaskToCapacity t.mask := by rw [h.items_eq]; exact h.cap
+  refine ⟨⟨Or.inr h.allocated, h.struct.valid, h.struct.mirror, hF.symm, fun _ => ?_, ?_, fun _ => hD⟩,
+    hD, hcap⟩
+  · show bucketMaskToCapacity t.mask - t.items + t.countCtrl isFull + t.countCtrl (· == DELETED) =
+      bucketMaskToCapacity t.mask
+    omega
+  · intro i hi
+    show (t.slots[i]?.join).isSome ↔ isFull (t.ctrlAt i) = true
+    rw [h.live i hi]
+    have hin : i < t.buckets := by rw [← h.slots_size]; exact hi
+    have := hnd i hin
+    simp only [isLive, Bool.or_eq_true, beq_iff_eq]
+    constructor
+    · rintro (h1 | h1)
+      · exact h1
+      · exact absurd h1 this
+    · exact Or.inl
+
+/-! ### 6. the unwind guard -/
+
+theorem StructInv.transfer {t t' : Raw} (h : StructInv cfg t) (ha : t.alloc = true)
+    (hct : t'.ctrl = t.ctrl) (hm : t'.mask = t.mask) (hal : t'.alloc = true)
+    (hss : t'.slots.size = t.slots.size) : StructInv cfg t' := by
+  have hb : t'.buckets = t.buckets := by simp only [Raw.buckets_eq, hm]
+  have hca : ∀ j, t'.ctrlAt j = t.ctrlAt j := fun j => by simp only [Raw.ctrlAt, hct]
+  refine ⟨Or.inr (IsAllocated.transfer (h.allocated ha) hal hm (by rw [hct]) hss), ?_, ?_⟩
+  · intro i hi
+    rw [hca]; exact h.valid i (by rw [← hct]; exact hi)
+  · intro _
+    simp only [hca, hb]
+    exact h.mirror ha
+
+/-- Log entries written when the elements `ds` are dropped (last dropped first). -/
+def dropEvs (cfg : Cfg) (ds : List Elem) : List Ev :=
+  if cfg.needsDrop then ds.flatMap (fun e => [Ev.dropV e.vid, Ev.dropK e.kid]) else []
+
+theorem dropEvs_nil (cfg : Cfg) : dropEvs cfg [] = [] := by
+  unfold dropEvs; split <;> rfl
+
+theorem dropEvs_append (cfg : Cfg) (a b : List Elem) :
+    dropEvs cfg (a ++ b) = dropEvs cfg a ++ dropEvs cfg b := by
+  unfold dropEvs; split
+  · exact List.flatMap_append
+  · rfl
+
+theorem dropElemQuiet_t (w : World) (e : Elem) : (w.dropElemQuiet cfg e).t = w.t := by
+  unfold World.dropElemQuiet; split <;> rfl
+
+theorem dropElemQuiet_log (w : World) (e : Elem) :
+    (w.dropElemQuiet cfg e).log = dropEvs cfg [e] ++ w.log := by
+  unfold World.dropElemQuiet dropEvs; split <;> rfl
+
+/-- One iteration of the guard at a pending bucket. -/
+theorem guard_step (hc : CfgOk cfg) (h : RInv cfg t) {i : Nat} (hi : i < t.buckets)
+    (hd : t.ctrlAt i = DELETED) :
+    ∃ t1 e t2, setCtrl cfg t i EMPTY = .ok t1 ∧ slotTake t1 i = .ok (e, t2) ∧ t2.items ≠ 0 ∧
+      RInv cfg { t2 with items := t2.items - 1 } ∧ t2.mask = t.mask ∧
+      List.Perm (e :: t2.elems) t.elems ∧
+      (∀ j, j < t.buckets → t2.ctrlAt j = if j = i then EMPTY else t.ctrlAt j) := by
+  obtain ⟨t1, he, hst, h1, h2, h3, _, h5, h6, h7⟩ :=
+    setCtrl_full hc h.struct h.alloc hi (c := EMPTY) (Or.inr (Or.inr rfl))
+  obtain ⟨e, hslot⟩ := h.slot_live hi (by rw [hd]; rfl)
+  have hcnt := h7 isLive
+  rw [hd] at hcnt
+  simp only [isLive_DELETED, isLive_EMPTY, if_true, Bool.false_eq_true, if_false] at hcnt
+  have hpos := countCtrl_pos hi isLive (by rw [hd]; rfl)
+  have hitems := h.items_eq
+  refine ⟨t1, e, { t1 with slots := t1.slots.setIfInBounds i none }, he, ?_, ?_, ?_, h1, ?_, h6⟩
+  · simp only [slotTake, h2, hslot]
+  · show t1.items ≠ 0
+    omega
+  · have hst' : StructInv cfg
+        { t1 with slots := t1.slots.setIfInBounds i none, items := t1.items - 1 } :=
+      hst.transfer h5 rfl rfl h5 (by simp)
+    refine ⟨hst', h5, ?_, ?_, ?_⟩
+    · intro j hj
+      have hj' : j < t.slots.size := by simpa [h2] using hj
+      have hjn : j < t.buckets := by rw [← h.slots_size]; exact hj'
+      show ((t1.slots.setIfInBounds i none)[j]?.join).isSome ↔ isLive (t1.ctrlAt j) = true
+      rw [h2, Array.getElem?_setIfInBounds, h6 j hjn]
+      by_cases hij : i = j
+      · subst hij
+        simp [hj', isLive_EMPTY]
+      · rw [if_neg hij, if_neg (Ne.symm hij)]
+        exact h.live j hj'
+    · show t1.items - 1 = t1.countCtrl isLive
+      omega
+    · show t1.countCtrl isLive ≤ bucketMaskToCapacity t1.mask
+      have := h.cap
+      rw [h1]; omega
+  · exact elems_take_perm (t' := { t1 with slots := t1.slots.setIfInBounds i none }) hslot
+      (by simp only [h2])
+
+theorem guard_go_spec (hc : CfgOk cfg) :
+    ∀ (fuel i : Nat) (w : World), RInv cfg w.t → i + fuel = w.t.buckets →
+      (∀ j, j < i → w.t.ctrlAt j ≠ DELETED) →
+      ∃ w' ds, rehashGuard.go cfg i fuel w = .ok w' ∧ RInv cfg w'.t ∧ w'.t.mask = w.t.mask ∧
+        (∀ j, j < w.t.buckets → w'.t.ctrlAt j ≠ DELETED) ∧
+        List.Perm (w'.t.elems ++ ds) w.t.elems ∧ w'.log = dropEvs cfg ds ++ w.log := by
+  intro fuel
+  induction fuel with
+  | zero =>
+    intro i w h hif hlt
+    refine ⟨w, [], rfl, h, rfl, fun j hj => hlt j (by omega), by simp, ?_⟩
+    rw [dropEvs_nil]; rfl
+  | succ fuel ih =>
+    intro i w h hif hlt
+    have hi : i < w.t.buckets := by omega
+    have hsz : i < w.t.ctrl.size := by have := h.allocated.2.2.1; omega
+    have hrd := ctrlRd_ok (t := w.t) hsz
+    by_cases hd : w.t.ctrlAt i = DELETED
+    · obtain ⟨t1, e, t2, hset, htake, hnz, hinv, hm, hperm, hct⟩ := guard_step hc h hi hd
+      let w1 : World := ({ w with t := { t2 with items := t2.items - 1 } } : World).dropElemQuiet cfg e
+      have hw1t : w1.t = { t2 with items := t2.items - 1 } := dropElemQuiet_t _ _
+      have hw1l : w1.log = dropEvs cfg [e] ++ w.log := dropElemQuiet_log _ _
+      have hb1 : w1.t.buckets = w.t.buckets := by rw [hw1t]; simp only [Raw.buckets_eq]; rw [hm]
+      have hct1 : ∀ j, j < w.t.buckets → w1.t.ctrlAt j = if j = i then EMPTY else w.t.ctrlAt j := by
+        intro j hj; rw [hw1t]; exact hct j hj
+      obtain ⟨w', ds, hrun, hinv', hm', hnd, hperm', hlog⟩ := ih (i + 1) w1 (by rw [hw1t]; exact hinv)
+        (by rw [hb1]; omega)
+        (by
+          intro j hj
+          rw [hct1 j (by omega)]
+          by_cases hji : j = i
+          · rw [if_pos hji]; decide
+          · rw [if_neg hji]; exact hlt j (by omega))
+      refine ⟨w', ds ++ [e], ?_, hinv', ?_, ?_, ?_, ?_⟩
+      · simp only [rehashGuard.go, hrd, hd, if_true, hset, htake, hnz, if_false]
+        exact hrun
+      · rw [hm', hw1t]; exact hm
+      · intro j hj; exact hnd j (by rw [hb1]; exact hj)
+      · have hp1 : List.Perm (w'.t.elems ++ ds) t2.elems := by
+          have : w1.t.elems = t2.elems := by rw [hw1t]; rfl
+          rw [← this]; exact hperm'
+        have : List.Perm (w'.t.elems ++ (ds ++ [e])) (e :: t2.elems) := by
+          rw [← List.append_assoc]
+          exact (List.perm_append_singleton e _).trans (List.Perm.cons e hp1)
+        exact this.trans hperm
+      · rw [hlog, hw1l, dropEvs_append, List.append_assoc]
+    · obtain ⟨w', ds, hrun, hinv', hm', hnd, hperm', hlog⟩ := ih (i + 1) w h (by omega)
+        (by
+          intro j hj
+          by_cases hji : j = i
+          · rw [hji]; exact hd
+          · exact hlt j (by omega))
+      refine ⟨w', ds, ?_, hinv', hm', hnd, hperm', hlog⟩
+      simp only [rehashGuard.go, hrd, hd, if_false]
+      exact hrun
+
+/-- The guard never faults on a table satisfying `RInv`.  If it runs its loop (`needsDrop` or the
+    repaired guard), the table left behind satisfies `Inv`, holds a sub-multiset of the elements,
+    the others (`ds`) have been dropped exactly once; otherwise (0.15.2 and no drop glue) only
+    `growth_left` is recomputed. -/
+theorem rehashGuard_spec (hc : CfgOk cfg) (w : World) (h : RInv cfg w.t) :
+    ∃ w2, rehashGuard cfg w = .ok w2 ∧ w2.t.mask = w.t.mask ∧
+      ((cfg.needsDrop = true ∨ cfg.guardAlways = true) →
+        Inv cfg w2.t ∧ w2.t.countCtrl (· == DELETED) = 0 ∧ w2.t.items = w2.t.elems.length ∧
+        w2.t.items + w2.t.gl = bucketMaskToCapacity w.t.mask ∧
+        ∃ ds, List.Perm (w2.t.elems ++ ds) w.t.elems ∧ w2.log = dropEvs cfg ds ++ w.log) ∧
+      (¬ (cfg.needsDrop = true ∨ cfg.guardAlways = true) →
+        w2 = { w with t := { w.t with gl := bucketMaskToCapacity w.t.mask - w.t.items } }) := by
+  by_cases hrun : cfg.needsDrop = true ∨ cfg.guardAlways = true
+  · have hrun' : (cfg.needsDrop || cfg.guardAlways) = true := by simpa using hrun
+    obtain ⟨w', ds, hgo, hinv, hm, hnd, hperm, hlog⟩ :=
+      guard_go_spec hc w.t.buckets 0 w h (by omega) (fun j hj => by omega)
+    have hb : w'.t.buckets = w.t.buckets := by simp only [Raw.buckets_eq, hm]
+    obtain ⟨hI, hD, hcap⟩ := hinv.toInv (fun j hj => hnd j (by rw [← hb]; exact hj))
+    refine ⟨{ w' with t := { w'.t with gl := bucketMaskToCapacity w'.t.mask - w'.t.items } }, ?_, hm,
+      fun _ => ⟨hI, hD, hinv.items_eq_length, ?_, ds, hperm, hlog⟩, fun hn => absurd hrun hn⟩
+    · simp only [rehashGuard, hrun', if_true, hgo]
+      rw [if_neg (by omega)]
+    · show w'.t.items + (bucketMaskToCapacity w'.t.mask - w'.t.items) = _
+      rw [← hm]; omega
+  · have hrun' : (cfg.needsDrop || cfg.guardAlways) = false := by
+      cases h1 : cfg.needsDrop <;> cases h2 : cfg.guardAlways <;> simp_all
+    have hcap : w.t.items ≤ bucketMaskToCapacity w.t.mask := by rw [h.items_eq]; exact h.cap
+    refine ⟨{ w with t := { w.t with gl := bucketMaskToCapacity w.t.mask - w.t.items } }, ?_, rfl,
+      fun hr => absurd hr hrun, fun _ => rfl⟩
+    simp only [rehashGuard, hrun', Bool.false_eq_true, if_false]
+    rw [if_neg (by omega)]
+
+/-! ### 7. the inner loop -/
+
+/-- Progress of the rehash loops: invariant kept, same geometry and `items`, same elements up to
+    order, no destructor ran. -/
+structure RStep (cfg : Cfg) (w w' : World) : Prop where
+  inv : RInv cfg w'.t
+  mask : w'.t.mask = w.t.mask
+  items : w'.t.items = w.t.items
+  perm : List.Perm w'.t.elems w.t.elems
+  log : w'.log = w.log
+
+theorem RStep.trans {a b c : World} (h1 : RStep cfg a b) (h2 : RStep cfg b c) : RStep cfg a c :=
+  ⟨h2.inv, h2.mask.trans h1.mask, h2.items.trans h1.items, h2.perm.trans h1.perm,
+    h2.log.trans h1.log⟩
+
+theorem RStep.buckets {a b : World} (h : RStep cfg a b) : b.t.buckets = a.t.buckets := by
+  simp only [Raw.buckets_eq, h.mask]
+
+/-- Outcome of a rehash loop started in `w`: success with `Q`, or a hasher panic after which the
+    guard ran on a state `w1` reachable from `w`; never a fault, never an abort. -/
+def RPost (cfg : Cfg) (w : World) (Q : World → Prop) : Res World → Prop
+  | .ok w' => RStep cfg w w' ∧ Q w'
+  | .panic c w2 => c = "hash" ∧ ∃ w1, RStep cfg w w1 ∧ rehashGuard cfg w1 = .ok w2
+  | .abort => False
+  | .fault _ => False
+
+theorem RPost.trans {w w1 : World} {Q Q1 : World → Prop} {r : Res World} (hs : RStep cfg w w1)
+    (hq : ∀ w', Q1 w' → Q w') (h : RPost cfg w1 Q1 r) : RPost cfg w Q r := by
+  cases r with
+  | ok w' => exact ⟨hs.trans h.1, hq _ h.2⟩
+  | panic c w2 =>
+    obtain ⟨hc, w3, h3, hg⟩ := h
+    exact ⟨hc, w3, hs.trans h3, hg⟩
+  | abort => exact h
+  | fault f => exact h
+
+theorem tag_facts (bits hash : Nat) :
+    ValidCtrl (tagFull bits hash) ∧ isLive (tagFull bits hash) = true ∧
+      tagFull bits hash ≠ DELETED ∧ (tagFull bits hash == DELETED) = false := by
+  have := tagFull_lt bits hash
+  refine ⟨Or.inl this, isLive_of_lt this, ?_, ?_⟩
+  · rw [DELETED]; omega
+  · simp only [DELETED, beq_eq_false_iff_ne, ne_eq]; omega
+
+theorem delBeq_DELETED : ((DELETED == DELETED) = true) := by decide
+theorem delBeq_EMPTY : ((EMPTY == DELETED) = false) := by decide
+
+/-- Branch "already in the right group". -/
+theorem inner_same (hc : CfgOk cfg) (h : RInv cfg t) {i : Nat} (hi : i < t.buckets)
+    (hd : t.ctrlAt i = DELETED) (hash : Nat) :
+    ∃ t', setCtrlHash cfg t i hash = .ok t' ∧ RInv cfg t' ∧ t'.mask = t.mask ∧ t'.items = t.items ∧
+      t'.slots = t.slots ∧
+      (∀ j, j < t.buckets → t'.ctrlAt j = if j = i then tagFull cfg.bits hash else t.ctrlAt j) := by
+  obtain ⟨hv, hl, hne, hbq⟩ := tag_facts cfg.bits hash
+  obtain ⟨t', he, hst, h1, h2, h3, _, h5, h6, h7⟩ := setCtrl_full hc h.struct h.alloc hi hv
+  have hcnt := h7 isLive
+  rw [hd] at hcnt
+  simp only [isLive_DELETED, hl, if_true] at hcnt
+  refine ⟨t', he, ⟨hst, h5, ?_, ?_, ?_⟩, h1, h3, h2, h6⟩
+  · intro j hj
+    rw [h2] at hj ⊢
+    have hjn : j < t.buckets := by rw [← h.slots_size]; exact hj
+    rw [h6 j hjn]
+    by_cases hji : j = i
+    · rw [if_pos hji, hl, h.live j hj, hji, hd]
+      simp [isLive_DELETED]
+    · rw [if_neg hji]; exact h.live j hj
+  · rw [h3, h.items_eq]; omega
+  · rw [h1]; have := h.cap; omega
+
+/-- Branch "target bucket was EMPTY": move the element. -/
+theorem inner_move (hc : CfgOk cfg) (h : RInv cfg t) {i ni : Nat} (hi : i < t.buckets)
+    (hd : t.ctrlAt i = DELETED) (hni : ni < t.buckets) (hne : ni ≠ i) (hpe : t.ctrlAt ni = EMPTY)
+    (hash : Nat) :
+    ∃ t1 t2 e t3 t4, setCtrlHash cfg t ni hash = .ok t1 ∧ setCtrl cfg t1 i EMPTY = .ok t2 ∧
+      slotTake t2 i = .ok (e, t3) ∧ slotPut t3 ni e = .ok t4 ∧ RInv cfg t4 ∧ t4.mask = t.mask ∧
+      t4.items = t.items ∧ List.Perm t4.elems t.elems ∧
+      (∀ j, j < t.buckets → t4.ctrlAt j =
+        if j = i then EMPTY else if j = ni then tagFull cfg.bits hash else t.ctrlAt j) := by
+  obtain ⟨hv, hl, _, _⟩ := tag_facts cfg.bits hash
+  obtain ⟨t1, he1, hst1, a1, a2, a3, _, a5, a6, a7⟩ := setCtrl_full hc h.struct h.alloc hni hv
+  have hb1 : t1.buckets = t.buckets := by simp only [Raw.buckets_eq, a1]
+  obtain ⟨t2, he2, hst2, b1, b2, b3, _, b5, b6, b7⟩ :=
+    setCtrl_full hc hst1 a5 (i := i) (by rw [hb1]; exact hi) (c := EMPTY) (Or.inr (Or.inr rfl))
+  obtain ⟨e, hslot⟩ := h.slot_live hi (by rw [hd]; rfl)
+  have hdead := h.slot_dead hni (by rw [hpe]; rfl)
+  have hct : ∀ j, j < t.buckets → t2.ctrlAt j =
+      if j = i then EMPTY else if j = ni then tagFull cfg.bits hash else t.ctrlAt j := by
+    intro j hj
+    rw [b6 j (by rw [hb1]; exact hj)]
+    by_cases hji : j = i
+    · rw [if_pos hji, if_pos hji]
+    · rw [if_neg hji, if_neg hji, a6 j hj]
+  have hc1 := a7 isLive
+  have hc2 := b7 isLive
+  rw [hpe] at hc1
+  rw [a6 i hi, if_neg (Ne.symm hne), hd] at hc2
+  simp only [isLive_DELETED, isLive_EMPTY, hl, if_true, Bool.false_eq_true, if_false] at hc1 hc2
+  have hs2 : t2.slots = t.slots := by rw [b2, a2]
+  have hslot3 : (t2.slots.setIfInBounds i none)[ni]? = some none := by
+    rw [hs2, Array.getElem?_setIfInBounds, if_neg (Ne.symm hne)]; exact hdead
+  let t4 : Raw := { t2 with slots := (t2.slots.setIfInBounds i none).setIfInBounds ni (some e) }
+  refine ⟨t1, t2, e, { t2 with slots := t2.slots.setIfInBounds i none }, t4, he1, he2, ?_, ?_,
+    ⟨hst2.transfer b5 rfl rfl b5 (by simp [t4]), b5, ?_, ?_, ?_⟩, b1.trans a1, b3.trans a3, ?_, hct⟩
+  · simp only [slotTake, hs2, hslot]
+  · simp only [slotPut, hslot3]
+    rfl
+  · intro j hj
+    have hj' : j < t.slots.size := by simpa [t4, hs2] using hj
+    have hjn : j < t.buckets := by rw [← h.slots_size]; exact hj'
+    show (((t2.slots.setIfInBounds i none).setIfInBounds ni (some e))[j]?.join).isSome ↔
+      isLive (t2.ctrlAt j) = true
+    rw [hct j hjn, hs2, Array.getElem?_setIfInBounds, Array.getElem?_setIfInBounds]
+    by_cases hjni : ni = j
+    · subst hjni
+      simp [hj', hne, hl]
+    · rw [if_neg hjni]
+      by_cases hji : i = j
+      · subst hji
+        simp [hj', isLive_EMPTY]
+      · rw [if_neg hji, if_neg (Ne.symm hji), if_neg (Ne.symm hjni)]
+        exact h.live j hj'
+  · show t2.items = t2.countCtrl isLive
+    rw [b3, a3, h.items_eq]; omega
+  · show t2.countCtrl isLive ≤ bucketMaskToCapacity t2.mask
+    rw [b1, a1]; have := h.cap; omega
+  · exact elems_swap_perm (t' := t4) (i := i) (j := ni) hslot hdead (by simp only [t4, hs2])
+
+/-- Branch "target bucket holds another pending element": swap, the element now in `i` is still
+    pending. -/
+theorem inner_swap (hc : CfgOk cfg) (h : RInv cfg t) {i ni : Nat} (hi : i < t.buckets)
+    (hd : t.ctrlAt i = DELETED) (hni : ni < t.buckets) (hpd : t.ctrlAt ni = DELETED)
+    (hash : Nat) :
+    ∃ t1 en ei, setCtrlHash cfg t ni hash = .ok t1 ∧ slotGet t1 ni = .ok en ∧
+      slotGet t1 i = .ok ei ∧
+      RInv cfg { t1 with slots := (t1.slots.setIfInBounds i (some en)).setIfInBounds ni (some ei) } ∧
+      t1.mask = t.mask ∧ t1.items = t.items ∧
+      List.Perm (Raw.elems
+        { t1 with slots := (t1.slots.setIfInBounds i (some en)).setIfInBounds ni (some ei) }) t.elems ∧
+      (∀ j, j < t.buckets → t1.ctrlAt j = if j = ni then tagFull cfg.bits hash else t.ctrlAt j) ∧
+      t1.countCtrl (· == DELETED) + 1 = t.countCtrl (· == DELETED) := by
+  obtain ⟨hv, hl, _, hbq⟩ := tag_facts cfg.bits hash
+  obtain ⟨t1, he1, hst1, a1, a2, a3, _, a5, a6, a7⟩ := setCtrl_full hc h.struct h.alloc hni hv
+  obtain ⟨ei, hsi⟩ := h.slot_live hi (by rw [hd]; rfl)
+  obtain ⟨en, hsn⟩ := h.slot_live hni (by rw [hpd]; rfl)
+  have hc1 := a7 isLive
+  have hc2 := a7 (· == DELETED)
+  rw [hpd] at hc1 hc2
+  simp only [isLive_DELETED, hl, delBeq_DELETED, hbq, if_true, Bool.false_eq_true, if_false] at hc1 hc2
+  refine ⟨t1, en, ei, he1, ?_, ?_, ⟨hst1.transfer a5 rfl rfl a5 (by simp), a5, ?_, ?_, ?_⟩, a1, a3, ?_,
+    a6, by omega⟩
+  · simp only [slotGet, a2, hsn]
+  · simp only [slotGet, a2, hsi]
+  · intro j hj
+    have hj' : j < t.slots.size := by simpa [a2] using hj
+    have hjn : j < t.buckets := by rw [← h.slots_size]; exact hj'
+    show (((t1.slots.setIfInBounds i (some en)).setIfInBounds ni (some ei))[j]?.join).isSome ↔
+      isLive (t1.ctrlAt j) = true
+    rw [a6 j hjn, a2, Array.getElem?_setIfInBounds, Array.getElem?_setIfInBounds]
+    by_cases hjni : ni = j
+    · subst hjni
+      simp [hj', hl]
+    · rw [if_neg hjni, if_neg (Ne.symm hjni)]
+      by_cases hji : i = j
+      · subst hji
+        simp [hj', hd, isLive_DELETED]
+      · rw [if_neg hji]
+        exact h.live j hj'
+  · show t1.items = t1.countCtrl isLive
+    rw [a3, h.items_eq]; omega
+  · show t1.countCtrl isLive ≤ bucketMaskToCapacity t1.mask
+    rw [a1]; have := h.cap; omega
+  · exact elems_swap_perm
+      (t' := { t1 with slots := (t1.slots.setIfInBounds i (some en)).setIfInBounds ni (some ei) })
+      (i := i) (j := ni) hsi hsn (by simp only [a2])
+
+theorem isInSameGroup_self (bits W mask i hash : Nat) : isInSameGroup bits W mask i i hash = true := by
+  simp [isInSameGroup]
+
+theorem countCtrl_le (t : Raw) (p : Nat → Bool) : t.countCtrl p ≤ t.buckets := by
+  have := List.countP_le_length (p := fun i => p (t.ctrlAt i)) (l := List.range t.buckets)
+  simpa [Raw.countCtrl] using this
+
+/-- Inner loop for the pending bucket `i`: with more fuel than pending buckets it terminates; on
+    success bucket `i` is no longer pending and no new bucket became pending. -/
+theorem rehashInner_spec (hc : CfgOk cfg) (hp : ProbeCovers cfg) (env : Env) (i : Nat) :
+    ∀ (fuel : Nat) (w : World), RInv cfg w.t → i < w.t.buckets → w.t.ctrlAt i = DELETED →
+      w.t.countCtrl (· == DELETED) < fuel →
+      RPost cfg w (fun w' => ∀ j, j < w.t.buckets → w'.t.ctrlAt j = DELETED →
+        w.t.ctrlAt j = DELETED ∧ j ≠ i) (rehashInner cfg env i fuel w) := by
+  intro fuel
+  induction fuel with
+  | zero => intro w _ _ _ hf; omega
+  | succ fuel ih =>
+    intro w h hi hd hf
+    obtain ⟨e, hslot⟩ := h.slot_live hi (by rw [hd]; rfl)
+    have hget : slotGet w.t i = .ok e := by simp only [slotGet, hslot]
+    have hrefl : RStep cfg w { w with hc := w.hc + 1 } := ⟨h, rfl, rfl, List.Perm.refl _, rfl⟩
+    cases hh : env.hash w.hc e.k with
+    | none =>
+      obtain ⟨w2, hg, _⟩ := rehashGuard_spec hc { w with hc := w.hc + 1 } h
+      simp only [rehashInner, hget, World.hashCall, hh, hg]
+      exact ⟨rfl, _, hrefl, hg⟩
+    | some hash =>
+      obtain ⟨ni, hfind, hni, hsp⟩ := h.finv.findInsertSlot_ok hc hp hash
+      obtain ⟨_, _, hnD, _⟩ := tag_facts cfg.bits hash
+      by_cases hsame : isInSameGroup cfg.bits cfg.W w.t.mask i ni hash = true
+      · obtain ⟨t', hset, hinv, hm, hit, hsl, hct⟩ := inner_same hc h hi hd hash
+        simp only [rehashInner, hget, World.hashCall, hh, hfind, hsame, if_true, hset]
+        refine ⟨⟨hinv, hm, hit, ?_, rfl⟩, ?_⟩
+        · show List.Perm t'.elems w.t.elems
+          rw [Raw.elems, Raw.elems, hsl]
+        · intro j hj hjd
+          show w.t.ctrlAt j = DELETED ∧ j ≠ i
+          have hjd' : t'.ctrlAt j = DELETED := hjd
+          rw [hct j hj] at hjd'
+          by_cases hji : j = i
+          · rw [if_pos hji] at hjd'; exact absurd hjd' hnD
+          · rw [if_neg hji] at hjd'; exact ⟨hjd', hji⟩
+      · have hne : ni ≠ i := by
+          intro heq; rw [heq, isInSameGroup_self] at hsame; exact hsame rfl
+        have hszn : ni < w.t.ctrl.size := by have := h.allocated.2.2.1; omega
+        have hrd := ctrlRd_ok (t := w.t) hszn
+        have hvn := h.struct.valid ni hszn
+        rcases special_cases hvn hsp with hpe | hpd
+        · obtain ⟨t1, t2, e', t3, t4, h1, h2, h3, h4, hinv, hm, hit, hperm, hct⟩ :=
+            inner_move hc h hi hd hni hne hpe hash
+          simp only [rehashInner, hget, World.hashCall, hh, hfind, hsame, Bool.false_eq_true,
+            if_false, hrd, h1, hpe, if_true, h2, h3, h4]
+          refine ⟨⟨hinv, hm, hit, hperm, rfl⟩, ?_⟩
+          intro j hj hjd
+          show w.t.ctrlAt j = DELETED ∧ j ≠ i
+          have hjd' : t4.ctrlAt j = DELETED := hjd
+          rw [hct j hj] at hjd'
+          by_cases hji : j = i
+          · rw [if_pos hji] at hjd'; exact absurd hjd' (by decide)
+          · rw [if_neg hji] at hjd'
+            by_cases hjn : j = ni
+            · rw [if_pos hjn] at hjd'; exact absurd hjd' hnD
+            · rw [if_neg hjn] at hjd'; exact ⟨hjd', hji⟩
+        · obtain ⟨t1, en, ei, h1, h2, h3, hinv, hm, hit, hperm, hct, hcnt⟩ :=
+            inner_swap hc h hi hd hni hpd hash
+          have hpne : ¬ (w.t.ctrlAt ni = EMPTY) := by rw [hpd]; decide
+          let w2 : World := { w with hc := w.hc + 1, t :=
+            { t1 with slots := (t1.slots.setIfInBounds i (some en)).setIfInBounds ni (some ei) } }
+          have hstep : RStep cfg w w2 := ⟨hinv, hm, hit, hperm, rfl⟩
+          have hb2 : w2.t.buckets = w.t.buckets := hstep.buckets
+          have hct2 : ∀ j, j < w.t.buckets → w2.t.ctrlAt j =
+              if j = ni then tagFull cfg.bits hash else w.t.ctrlAt j := hct
+          have hcnt2 : w2.t.countCtrl (· == DELETED) + 1 = w.t.countCtrl (· == DELETED) := hcnt
+          have hrec := ih w2 hinv (by rw [hb2]; exact hi)
+            (by rw [hct2 i hi, if_neg (Ne.symm hne)]; exact hd) (by omega)
+          simp only [rehashInner, hget, World.hashCall, hh, hfind, hsame, Bool.false_eq_true,
+            if_false, hrd, h1, hpne, h2, h3]
+          refine RPost.trans hstep ?_ hrec
+          intro w' hq j hj hjd
+          obtain ⟨hq1, hq2⟩ := hq j (by rw [hb2]; exact hj) hjd
+          rw [hct2 j hj] at hq1
+          by_cases hjn : j = ni
+          · rw [if_pos hjn] at hq1; exact absurd hq1 hnD
+          · rw [if_neg hjn] at hq1; exact ⟨hq1, hq2⟩
+
+/-! ### 8. the outer loop and `rehash_in_place` -/
+
+theorem RStep.refl {w : World} (h : RInv cfg w.t) : RStep cfg w w :=
+  ⟨h, rfl, rfl, List.Perm.refl _, rfl⟩
+
+/-- Outer loop from bucket `i` on, nothing pending below `i`: on success nothing is pending. -/
+theorem rehashOuter_spec (hc : CfgOk cfg) (hp : ProbeCovers cfg) (env : Env) :
+    ∀ (fuel i : Nat) (w : World), RInv cfg w.t → i + fuel = w.t.buckets →
+      (∀ j, j < i → w.t.ctrlAt j ≠ DELETED) →
+      RPost cfg w (fun w' => ∀ j, j < w.t.buckets → w'.t.ctrlAt j ≠ DELETED)
+        (rehashOuter cfg env fuel i w) := by
+  intro fuel
+  induction fuel with
+  | zero =>
+    intro i w h hif hlt
+    exact ⟨RStep.refl h, fun j hj => hlt j (by omega)⟩
+  | succ fuel ih =>
+    intro i w h hif hlt
+    have hi : i < w.t.buckets := by omega
+    have hsz : i < w.t.ctrl.size := by have := h.allocated.2.2.1; omega
+    have hrd := ctrlRd_ok (t := w.t) hsz
+    by_cases hd : w.t.ctrlAt i = DELETED
+    · have hin := rehashInner_spec hc hp env i (w.t.buckets + 1) w h hi hd
+        (by have := countCtrl_le w.t (· == DELETED); omega)
+      cases hr : rehashInner cfg env i (w.t.buckets + 1) w with
+      | ok w' =>
+        rw [hr] at hin
+        obtain ⟨hstep, hq⟩ := hin
+        have hb := hstep.buckets
+        have hrec := ih (i + 1) w' hstep.inv (by rw [hb]; omega)
+          (by
+            intro j hj hjd
+            obtain ⟨h1, h2⟩ := hq j (by omega) hjd
+            exact hlt j (by omega) h1)
+        simp only [rehashOuter, hrd, hd, if_true, hr]
+        exact RPost.trans hstep (fun w'' hq'' j hj => hq'' j (by rw [hb]; exact hj)) hrec
+      | panic c w2 =>
+        rw [hr] at hin
+        simp only [rehashOuter, hrd, hd, if_true, hr]
+        exact hin
+      | abort => rw [hr] at hin; exact hin.elim
+      | fault f => rw [hr] at hin; exact hin.elim
+    · have hrec := ih (i + 1) w h (by omega)
+        (by
+          intro j hj
+          by_cases hji : j = i
+          · rw [hji]; exact hd
+          · exact hlt j (by omega))
+      simp only [rehashOuter, hrd, hd, if_false]
+      exact hrec
+
+/-- **`rehash_in_place`.**  From a well-formed allocated table, for every environment: no undefined
+    behaviour, no abort.  On success all tombstones are reclaimed, the elements are the same (up to
+    bucket order), nothing was dropped or allocated.  On a hasher panic, if the guard loop runs
+    (`needs_drop::<T>()`, or the repaired guard), the table is well-formed again and every element
+    is either still stored or was dropped exactly once (`ds`); with the 0.15.2 guard and an element
+    type without drop glue only `growth_left` is recomputed: nothing is lost, but the table is in
+    general not well-formed (see `rehash_guard_defect_witness`). -/
+theorem rehashInPlace_spec (hc : CfgOk cfg) (hp : ProbeCovers cfg) (env : Env) (w : World)
+    (h : Inv cfg w.t) (ha : w.t.alloc = true) :
+    match rehashInPlace cfg env w with
+    | .ok w' =>
+      Inv cfg w'.t ∧ w'.t.mask = w.t.mask ∧ w'.t.items = w.t.items ∧
+      w'.t.countCtrl (· == DELETED) = 0 ∧
+      w'.t.items + w'.t.gl = bucketMaskToCapacity w.t.mask ∧
+      List.Perm w'.t.elems w.t.elems ∧ w'.log = w.log
+    | .panic c w' =>
+      c = "hash" ∧ w'.t.mask = w.t.mask ∧
+      ((cfg.needsDrop = true ∨ cfg.guardAlways = true) →
+        Inv cfg w'.t ∧ w'.t.countCtrl (· == DELETED) = 0 ∧ w'.t.items = w'.t.elems.length ∧
+        w'.t.items + w'.t.gl = bucketMaskToCapacity w.t.mask ∧
+        ∃ ds, List.Perm (w'.t.elems ++ ds) w.t.elems ∧ w'.log = dropEvs cfg ds ++ w.log) ∧
+      (¬ (cfg.needsDrop = true ∨ cfg.guardAlways = true) →
+        List.Perm w'.t.elems w.t.elems ∧ w'.log = w.log ∧ w'.t.items = w.t.items)
+    | .abort => False
+    | .fault _ => False := by
+  obtain ⟨t1, hprep, hm1, hs1, hi1, _, _, _, _, hinv1⟩ := prepareRehashInPlace_spec hc h ha
+  have hout := rehashOuter_spec hc hp env t1.buckets 0 { w with t := t1 } hinv1 (by simp)
+    (fun j hj => by omega)
+  have he1 : t1.elems = w.t.elems := by rw [Raw.elems, Raw.elems, hs1]
+  cases hr : rehashOuter cfg env t1.buckets 0 { w with t := t1 } with
+  | ok w' =>
+    rw [hr] at hout
+    obtain ⟨hstep, hq⟩ := hout
+    obtain ⟨hI, hD, hcap⟩ := hstep.inv.toInv (fun j hj => hq j (by rw [← hstep.buckets]; exact hj))
+    have hres : rehashInPlace cfg env w =
+        .ok { w' with t := { w'.t with gl := bucketMaskToCapacity w'.t.mask - w'.t.items } } := by
+      simp only [rehashInPlace, hprep, hr]
+      rw [if_neg (by omega)]
+    rw [hres]
+    have hm : w'.t.mask = w.t.mask := hstep.mask.trans hm1
+    refine ⟨hI, hm, hstep.items.trans hi1, hD, ?_, ?_, hstep.log⟩
+    · show w'.t.items + (bucketMaskToCapacity w'.t.mask - w'.t.items) = _
+      rw [← hm]; omega
+    · show List.Perm w'.t.elems w.t.elems
+      rw [← he1]; exact hstep.perm
+  | panic c w2 =>
+    rw [hr] at hout
+    obtain ⟨hcl, w1, hstep, hg⟩ := hout
+    have hres : rehashInPlace cfg env w = .panic c w2 := by
+      simp only [rehashInPlace, hprep, hr]
+    rw [hres]
+    obtain ⟨w2', hg', hm2, hrun, hnorun⟩ := rehashGuard_spec hc w1 hstep.inv
+    rw [hg] at hg'
+    cases hg'
+    have hm : w1.t.mask = w.t.mask := hstep.mask.trans hm1
+    have hpe : List.Perm w1.t.elems w.t.elems := by rw [← he1]; exact hstep.perm
+    refine ⟨hcl, hm2.trans hm, fun hrn => ?_, fun hrn => ?_⟩
+    · obtain ⟨a1, a2, a3, a4, ds, a5, a6⟩ := hrun hrn
+      refine ⟨a1, a2, a3, by rw [a4, hm], ds, a5.trans hpe, ?_⟩
+      rw [a6, hstep.log]
+    · have := hnorun hrn
+      subst this
+      exact ⟨hpe, hstep.log, hstep.items.trans hi1⟩
+  | abort => rw [hr] at hout; exact hout.elim
+  | fault f => rw [hr] at hout; exact hout.elim
+
+theorem rehashInPlace_no_fault (hc : CfgOk cfg) (hp : ProbeCovers cfg) (env : Env) (w : World)
+    (h : Inv cfg w.t) (ha : w.t.alloc = true) :
+    (∀ f, rehashInPlace cfg env w ≠ .fault f) ∧ rehashInPlace cfg env w ≠ .abort := by
+  have := rehashInPlace_spec hc hp env w h ha
+  refine ⟨fun f hf => ?_, fun hf => ?_⟩ <;> rw [hf] at this <;> exact this
+
+/-- The panic outcome with a running guard, element-wise: nothing new appears, every old element is
+    kept or dropped (and the multiset count is exact: `w'.t.elems ++ ds` is a permutation of the
+    old elements, so nothing is dropped twice or dropped and kept). -/
+theorem rehashInPlace_panic_elems (hc : CfgOk cfg) (hp : ProbeCovers cfg) (env : Env) (w : World)
+    (h : Inv cfg w.t) (ha : w.t.alloc = true) {c : String} {w' : World}
+    (hr : rehashInPlace cfg env w = .panic c w')
+    (hrun : cfg.needsDrop = true ∨ cfg.guardAlways = true) :
+    c = "hash" ∧ Inv cfg w'.t ∧ w'.t.items = w'.t.elems.length ∧
+    (∀ e, e ∈ w'.t.elems → e ∈ w.t.elems) ∧
+    ∃ ds, (∀ e, e ∈ w.t.elems → e ∈ w'.t.elems ∨ e ∈ ds) ∧ (∀ e, e ∈ ds → e ∈ w.t.elems) ∧
+      w'.t.elems.length + ds.length = w.t.elems.length ∧ w'.log = dropEvs cfg ds ++ w.log := by
+  have := rehashInPlace_spec hc hp env w h ha
+  rw [hr] at this
+  obtain ⟨hcl, _, hrn, _⟩ := this
+  obtain ⟨a1, _, a3, _, ds, a5, a6⟩ := hrn hrun
+  refine ⟨hcl, a1, a3, fun e he => a5.subset (List.mem_append_left _ he), ds, fun e he => ?_,
+    fun e he => a5.subset (List.mem_append_right _ he), ?_, a6⟩
+  · exact List.mem_append.mp (a5.symm.subset he)
+  · rw [← List.length_append]; exact a5.length_eq
+
+#print axioms prepareRehashInPlace_spec
+#print axioms rehashGuard_spec
+#print axioms rehashInner_spec
+#print axioms rehashOuter_spec
+#print axioms rehashInPlace_spec
+#print axioms rehashInPlace_panic_elems
+#print axioms rehash_guard_defect_witness
+#print axioms rehash_guard_fixed_witness
 
 end Hb
